@@ -119,6 +119,11 @@ def check_case(ctx, g, rng, model=None, limit=5.0, shuffle=True):
         # renaming under which different actions differ only in letter case
         m = gen.case_rename_map(g)
         inv = {v: k for k, v in m.items()}
+        if m and rng.random() < 0.4:
+            k0 = sorted(m)[rng.randrange(len(m))]
+            m[k0] = ""                        # the empty string is a legal action name
+            inv = {v: k for k, v in m.items()}
+            ctx.count("empty_action_name")
         rename, unrename = (lambda a: m.get(a, a)), (lambda a: inv.get(a, a))
         ctx.count("case_only_renaming")
     else:
